@@ -81,37 +81,27 @@ def position_invariant(ctx, F):
         ctx.check("C15.INV", "const-on-board:%s" % c, ok, fn=cpath, file=a["file"],
                   what="a Position constant is off the board", found=(r, cc))
         all_ok &= ok
-    # guarded constructors (HIR)
-    want_guard = "(<Idx>::contains(ops::Range{end: 8, start: 0}, %s) && <Idx>::contains(ops::Range{end: 8, start: 0}, %s))"
-    for name, args in (("new", ("row", "col")), ("add", ("row", "col")), ("new_assert", ("row", "col"))):
+    # checked constructors, evaluated on a grid of arguments (helpers they forward to expanded): a Position is only ever built
+    # with both components in 0..8; otherwise the result is None / a panic
+    from .common import position_constructor_cases
+    from . import inline
+    for name in ("new", "add", "new_assert"):
         fn = F.fn("chess::position::Position::" + name)
-        env = hir.Env(fn["hir"], F)
-        sym = hir.Sym(env, F)
-        body = fn["hir"]["body"]
-        ctors = [n for n, _ in hir.walk(body) if n.get("k") == "Call" and n.get("ty") == "chess::position::Position" and
-                 ((n.get("callee") or {}).get("dk", "").startswith("Ctor") or hir.strip(n["f"]).get("to", {}).get("res") == "selfctor")]
-        ok = len(ctors) == 1
-        found = None
-        if ok:
-            c = ctors[0]
-            g = [(hir.fmt(x[1], 300), x[2]) for x in (hir.guards_of(c, body, sym) or []) if x[0] == "if"]
-            a0, a1 = hir.fmt(sym(c["args"][0]), 80), hir.fmt(sym(c["args"][1]), 80)
-            found = {"args": (a0, a1), "guards": g}
-            if name in ("new", "add"):
-                need = [("%s" % ("<Idx>::contains(ops::Range{end: 8, start: 0}, %s)" % a0), True),
-                        ("%s" % ("<Idx>::contains(ops::Range{end: 8, start: 0}, %s)" % a1), True)]
-                ok = all(n in g for n in need)
-            else:
-                # assert!(..) expands to `if !cond { panic }` before the constructor
-                # assert!(c) is `if !c { panic }`: an early-exit guard, i.e. c holds afterwards
-                ok = any(((want_guard % (a0, a1)), True) == x for x in g)
-                if not ok:
-                    txt = [x[0] for x in g if x[1] is True]
-                    ok = any("contains(ops::Range{end: 8, start: 0}, %s)" % a0 in t and
-                             "contains(ops::Range{end: 8, start: 0}, %s)" % a1 in t and "||" not in t for t in txt)
+        bad, n_ = [], 0
+        try:
+            for args, v in position_constructor_cases(F, name):
+                n_ += 1
+                built = [x for x in hir.subterms(v) if x[:1] == ("pos",)]
+                off = [x for x in built if not (0 <= x[1] < 8 and 0 <= x[2] < 8)]
+                undecided = not built and v not in (("variant", "std::prelude::v1::None"), ("panic",))
+                if off or undecided:
+                    bad.append((args, hir.fmt(v, 60)))
+        except (hir.Unsupported, inline.Cannot) as e:
+            bad.append(("not summarisable", str(e)))
+        ok = not bad and n_ > 0
         ctx.check("C15.INV", "checked-constructor:%s" % name, ok, fn=fn["path"], file=fn["file"], line=fn["span"][0],
                   what="Position::%s builds a Position without having established both components in 0..8" % name,
-                  expected="(0..8).contains(row) && (0..8).contains(col) on the path to the constructor", found=found)
+                  expected="a Position only for components in 0..8, None / panic otherwise", found=bad[:4] or "%d argument cases" % n_)
         all_ok &= ok
     # unchecked constructors exist and are `unsafe fn` (precondition pushed to callers: PAWN / ROW obligations)
     # every other function of the module that builds a Position (unchecked constructors) must be an `unsafe fn`
@@ -142,6 +132,36 @@ def position_invariant(ctx, F):
 
 
 # ---------------------------------------------------------------------------
+
+def forwards_params(fn, t):
+    """every argument of the call is a function of the enclosing function's parameters only (no other state is read)"""
+    m = fn["mir"]
+    nargs = m["arg_count"]
+    defs = mir.copy_sources(fn)
+    seen = set()
+
+    def ok(op, depth=0):
+        if op.get("k") == "const":
+            return True
+        if op.get("k") not in ("copy", "move") or depth > 12:
+            return False
+        l = op["place"]["l"]
+        if 1 <= l <= nargs:
+            return True
+        if l in seen:
+            return True
+        seen.add(l)
+        ds = defs.get(l) or []
+        if len(ds) != 1:
+            return False
+        rv = ds[0]
+        if rv.get("k") == "CallResult":
+            return False
+        ops_ = mir.operands_of_rvalue(rv)
+        pls = mir.places_read_by_rvalue(rv)
+        return all(ok(o, depth + 1) for o in ops_) and all(ok({"k": "copy", "place": p_}, depth + 1) for p_ in pls)
+    return all(ok(a) for a in t["args"])
+
 
 def unsafe_sites(F):
     out = []
@@ -282,6 +302,10 @@ def obligations(ctx, F, inv_ok):
                     rule, ok = "RNG", True
                 elif rule == "?":
                     rule = "no-rule"
+        elif short in ("new_unsafe", "add_unsafe", "new_unchecked") and fn.get("unsafe") is True and forwards_params(fn, t):
+            # an unchecked constructor called from another `unsafe fn` with arguments computed from that function's own parameters:
+            # the precondition is the caller's, and every call of the enclosing unsafe fn is an obligation of this list itself
+            rule, ok, found = "FWD", True, {"forwarded to the callers of": path}
         elif short == "new_unsafe":
             rule, ok, found = row_obligation(fn, t, F, D, inv_ok)
         elif short == "add_unsafe":
